@@ -205,6 +205,9 @@ func scanStringLiteralToken(buf string, pos int) Token {
 			}
 			c2 := buf[pos+i]
 			bb.WriteByte(c2)
+		} else if c == '\n' {
+			// Go's interpreted string can't contain raw newline.
+			bb.WriteString("\\n")
 		} else {
 			bb.WriteByte(c)
 		}
